@@ -49,6 +49,10 @@ CHECKS = {
          "TLC proves the stack bound of a visited-set DFS on all graphs with 3 (4) nodes and exhibits the violation without the visited set. Each graph becomes fragment-spread cycles on object / interface / union types (direct, through fields, through inline fragments, with and without __typename) and input-type cycles (non-null, nullable, list edges); plus cycles up to length 6, nesting depth up to 64 (128), interfaces without implementors, self-referential unions, truncated / garbage documents and schemas (SDL and JSON). Every input runs in its own process, which must exit with status 0 and a verdict within 20 s.",
          "Trusted: TLC; the case builder in tools/c17.py; process exit status as reported by the OS.",
          "DESIGN.md §5 C17", "model_checking"),
+ "C14": ("TLA+ reference table of deprecation strategies (MC_C14) enumerated exhaustively by TLC over deprecation states of object and interface fields x strategy x schema format; every case replayed into the real generator (attributes and member lists read with syn), deny cases compiled and fed payloads containing the omitted fields",
+         "Exhaustive over 4 deprecation states (none, bare, two reason texts incl. quotes / backslash / non-ASCII) of three object fields and one interface field x {allow, warn, deny, no strategy} x {SDL directive, JSON isDeprecated}; 13 selected members (direct, aliased, via fragment, inside an interface variant, object-typed) are checked per case against the reference: attribute exactly as documented, member omitted only under deny and only when deprecated in the scope it is selected in.",
+         "Trusted: TLC, render.py, syn attribute parsing in gqlv inventory. Quick tier replays a seeded sample of 800 of the 2048 cases; thorough all.",
+         "DESIGN.md §5 C14", "model_checking"),
 }
 
 
